@@ -37,7 +37,7 @@ ASSUMPTIONS = [
 ]
 MANDATORY = ["op:set-new", "op:set-replace", "op:reject", "op:del", "op:rename_ds", "op:rename_var", "op:dims", "op:set_axis", "op:axes_set",
              "op:axes_set_int", "op:axes_set_renamed", "op:label", "op:append", "op:rename_keys", "op:rename_axes", "op:copy", "op:derive",
-             "start:constructed", "reject-after-accept", "replace-changes-dims", "axis-change-with-2-users", "reject:new-dim-first"]
+             "start:constructed", "reject-after-accept", "replace-changes-dims", "axis-change-with-2-users", "reject:new-dim-first", "dims:permute-existing"]
 
 NAMES = ["x", "y", "z", "w"]
 FRESH = ["p", "q", "r", "s", "u", "v", "g", "h"]
@@ -260,6 +260,16 @@ def run_case(case):
                 continue
             fresh = [d for d in NAMES + FRESH if d not in m.axes]
             news = [fresh[(a + j) % len(fresh)] for j in range(len(m.axes))]
+            cur = list(m.axes)
+            if len(cur) >= 2 and b % 3 == 1:
+                k = 1 + c % (len(cur) - 1)
+                news = cur[k:] + cur[:k]                  # the existing names, rotated (a swap for two dimensions)
+                cl.add("dims:permute-existing")
+            elif len(cur) >= 2 and b % 3 == 2:
+                news = cur[1:] + [fresh[a % len(fresh)]]  # shift: each axis takes its right neighbour's name, the last a fresh one
+                if e % 2:
+                    news = [fresh[a % len(fresh)]] + cur[:-1]
+                cl.add("dims:permute-existing")
             if len(set(news)) != len(news):
                 continue
             mp = dict(zip(m.axes, news))
@@ -321,7 +331,12 @@ def run_case(case):
                         compare(r, m2, what + " [copy returned by set_axis]", sig, check_free=False)
             elif op == "axes_set":
                 def f():
-                    ds.axes[d] = da.Axis(arrl, d)
+                    if e % 3 == 1:
+                        ds.axes[d] = arrl               # bare labels
+                    elif e % 3 == 2:
+                        ds.axes[d] = arrl.tolist()
+                    else:
+                        ds.axes[d] = da.Axis(arrl, d)
                 lib(f, what=what + " ds.axes[%r] = Axis(%s)" % (d, new), sig=sig)
                 m.axes[d] = list(new)
             elif op == "axes_set_int":
